@@ -143,7 +143,8 @@ variable (P : Params) (C : EncPrims) (K : Codec) (rd : Nat → Nat)
   (hchunks : cfg.encrypted = true → (encPlain P cfg S cs).length / P.chunk + 1 < U32)
   (hcs : cfg.compressed = true → CompFS.IsEncoded P K S cs)
   (hfit : cfg.compressed = true → CompFits P cs)
-include hC hK hrd hrd0 hchunks hcs hfit
+  (hfile : (hdr ++ sealedBody P C cfg S cs).length < U64)
+include hC hK hrd hrd0 hchunks hcs hfit hfile
 
 /-- **the initialised reader stack behaves like a cursor over the block stream `S`**, for every
     layer combination, over `file = hdr ++ sealedBody P C cfg S cs` -/
@@ -157,34 +158,34 @@ theorem openStack_cursor :
         r.off = hdr.length ∧ hdr.length ≤ r.inner.pos) (rawAfterHeader (hdr ++ body) hdr.length) := by
     intro body
     simp [rawAfterHeader]
-  have hrawc : ∀ body : Bytes, IsCursor (σ := RawR Cur)
+  have hrawc : ∀ body : Bytes, (hdr ++ body).length < U64 → IsCursor (σ := RawR Cur)
       (fun r => (r.inner.data = hdr ++ body ∧ r.inner.pos ≤ (hdr ++ body).length) ∧
         r.off = hdr.length ∧ hdr.length ≤ r.inner.pos)
       (fun r => r.inner.pos - r.off) body := by
-    intro body
-    have := RawR.isCursor (hdr ++ body) hdr.length (by simp) (Cur.isCursor (hdr ++ body))
+    intro body hb
+    have := RawR.isCursor (hdr ++ body) hdr.length (by simp) hb (Cur.isCursor (hdr ++ body))
     simpa using this
   cases cfg with
-  | none => exact ⟨_, _, _, rfl, hrawc S, hraw0 S⟩
+  | none => exact ⟨_, _, _, rfl, hrawc S hfile, hraw0 S⟩
   | enc =>
     have hch : S.length / P.chunk + 1 < U32 := hchunks rfl
-    obtain ⟨r, hinit, hinv, _⟩ := C11.EncR.init_ok P C hC S (hrawc (sealS P C S)) _ (hraw0 _)
-    refine ⟨_, _, ⟨r⟩, ?_, C11.EncRd.isCursor P C hC S hch (hrawc (sealS P C S)), hinv⟩
+    obtain ⟨r, hinit, hinv, _⟩ := C11.EncR.init_ok P C hC S (hrawc (sealS P C S) hfile) _ (hraw0 _)
+    refine ⟨_, _, ⟨r⟩, ?_, C11.EncRd.isCursor P C hC S hch (hrawc (sealS P C S) hfile), hinv⟩
     simp only [openStack, sealedBody, hinit]
   | comp =>
     have hcomp := isCompressed_of_encoded hK (hcs rfl)
     obtain ⟨r, hinit, hinv, _⟩ := C11.CompR.init_ok P K rd S cs _ hcomp (hfit rfl)
-      (hrawc (compBody P S cs)) _ (hraw0 _)
+      (hrawc (compBody P S cs) hfile) _ (hraw0 _)
     refine ⟨_, _, ⟨r⟩, ?_,
-      C11.CompRd.isCursor P K rd hrd hrd0 S cs _ hcomp (hrawc (compBody P S cs)), hinv⟩
+      C11.CompRd.isCursor P K rd hrd hrd0 S cs _ hcomp (hrawc (compBody P S cs) hfile), hinv⟩
     simp only [openStack, sealedBody, hinit]
   | compEnc =>
     have hch : (compBody P S cs).length / P.chunk + 1 < U32 := hchunks rfl
     have hcomp := isCompressed_of_encoded hK (hcs rfl)
     have henc := C11.EncRd.isCursor P C hC (compBody P S cs) hch
-      (hrawc (sealS P C (compBody P S cs)))
+      (hrawc (sealS P C (compBody P S cs)) hfile)
     obtain ⟨r, hinit, hinv, _⟩ := C11.EncR.init_ok P C hC (compBody P S cs)
-      (hrawc (sealS P C (compBody P S cs))) _ (hraw0 _)
+      (hrawc (sealS P C (compBody P S cs)) hfile) _ (hraw0 _)
     obtain ⟨r', hinit', hinv', _⟩ := C11.CompR.init_ok P K rd S cs _ hcomp (hfit rfl) henc ⟨r⟩ hinv
     refine ⟨_, _, ⟨r'⟩, ?_, C11.CompRd.isCursor P K rd hrd hrd0 S cs _ hcomp henc, hinv'⟩
     simp only [openStack, sealedBody, hinit, hinit']
